@@ -289,6 +289,73 @@ theorem length_inter2_limit (n : Nat) (hn : 0 < n) (a c : List Bytes) :
     (inter2 (n : Int) a c).length = min n (a.filter c.contains).length := by
   simp [inter2, hn, List.length_take]
 
+/-- **the divide-and-conquer intersection holds exactly the members common to every operand** (any number
+    of operands ≥ 1, enough recursion fuel — the handler passes the number of operands) -/
+theorem mem_interAll (x : Bytes) : ∀ (f : Nat) (l : List (List Bytes)), l ≠ [] → l.length ≤ f + 2 →
+    (x ∈ interAll f l ↔ ∀ a ∈ l, x ∈ a) := by
+  intro f
+  induction f with
+  | zero =>
+    intro l hne hlen
+    match l, hne, hlen with
+    | [a], _, _ => simp [interAll]
+    | [a, c], _, _ => simp [interAll, mem_inter2_zero]
+  | succ f ih =>
+    intro l hne hlen
+    match l, hne, hlen with
+    | [a], _, _ => simp [interAll]
+    | [a, c], _, _ => simp [interAll, mem_inter2_zero]
+    | a :: c :: d :: r, _, hlen =>
+      have hl : (a :: c :: d :: r).length = r.length + 3 := by simp
+      have h1 : ((a :: c :: d :: r).take ((a :: c :: d :: r).length / 2)) ≠ [] := by
+        intro h0; have := congrArg List.length h0
+        rw [List.length_take, hl] at this; simp at this; omega
+      have h2 : ((a :: c :: d :: r).drop ((a :: c :: d :: r).length / 2)) ≠ [] := by
+        intro h0; have := congrArg List.length h0
+        rw [List.length_drop, hl] at this; simp at this; omega
+      have l1 : ((a :: c :: d :: r).take ((a :: c :: d :: r).length / 2)).length ≤ f + 2 := by
+        rw [List.length_take, hl]; rw [hl] at hlen; omega
+      have l2 : ((a :: c :: d :: r).drop ((a :: c :: d :: r).length / 2)).length ≤ f + 2 := by
+        rw [List.length_drop, hl]; rw [hl] at hlen; omega
+      have e : interAll (f + 1) (a :: c :: d :: r) =
+          inter2 0 (interAll f ((a :: c :: d :: r).take ((a :: c :: d :: r).length / 2)))
+            (interAll f ((a :: c :: d :: r).drop ((a :: c :: d :: r).length / 2))) := by
+        simp [interAll]
+      rw [e, mem_inter2_zero, ih _ h1 l1, ih _ h2 l2]
+      constructor
+      · rintro ⟨ht, hd⟩ y hy
+        rw [← List.take_append_drop ((a :: c :: d :: r).length / 2) (a :: c :: d :: r)] at hy
+        rcases List.mem_append.mp hy with hy | hy
+        · exact ht y hy
+        · exact hd y hy
+      · intro hall
+        exact ⟨fun y hy => hall y (List.mem_of_mem_take hy), fun y hy => hall y (List.mem_of_mem_drop hy)⟩
+
+/-- the intersection of duplicate-free operands is duplicate-free -/
+theorem nodup_interAll : ∀ (f : Nat) (l : List (List Bytes)), (∀ a ∈ l, a.Nodup) → (interAll f l).Nodup := by
+  intro f
+  induction f with
+  | zero =>
+    intro l h
+    match l with
+    | [] => simp [interAll]
+    | [a] => simpa [interAll] using h
+    | [a, c] => simp only [interAll]; exact nodup_inter2_zero a c (h a (by simp))
+    | a :: c :: d :: r => simp [interAll]
+  | succ f ih =>
+    intro l h
+    match l with
+    | [] => simp [interAll]
+    | [a] => simpa [interAll] using h
+    | [a, c] => simp only [interAll]; exact nodup_inter2_zero a c (h a (by simp))
+    | a :: c :: d :: r =>
+      have e : interAll (f + 1) (a :: c :: d :: r) =
+          inter2 0 (interAll f ((a :: c :: d :: r).take ((a :: c :: d :: r).length / 2)))
+            (interAll f ((a :: c :: d :: r).drop ((a :: c :: d :: r).length / 2))) := by
+        simp [interAll]
+      rw [e]
+      exact nodup_inter2_zero _ _ (ih _ fun y hy => h y (List.mem_of_mem_take hy))
+
 /-- the two orders of a two-element list -/
 theorem nthPerm_pair {α : Type} (n : Nat) (x y : α) : nthPerm n [x, y] = [x, y] ∨ nthPerm n [x, y] = [y, x] := by
   unfold nthPerm
@@ -357,6 +424,89 @@ theorem run_interLoop_absent_second (c : Ctx) (s : State) (ka kb : Bytes) (ma : 
     (interLoop [(ka, true), (kb, false)] onAbsent kont).run c s = (s, .done onAbsent) := by
   simp [interLoop, getValues_live _ _ _ _ ha la, asSet?]
 
+/-! ### the SINTER operand loop on any number of keys -/
+
+/-- an element and the list without it make up the list -/
+theorem perm_getElem_eraseIdx {α : Type} : ∀ (l : List α) (i : Nat) (h : i < l.length), (l[i] :: l.eraseIdx i).Perm l
+  | a :: r, 0, _ => by simp
+  | a :: r, i + 1, h => by
+    have h' : i < r.length := by simpa using h
+    simp only [List.getElem_cons_succ, List.eraseIdx_cons_succ]
+    exact (List.Perm.swap a r[i] (r.eraseIdx i)).trans (List.Perm.cons a (perm_getElem_eraseIdx r i h'))
+
+
+/-- a list without duplicates loses nothing to duplicate removal -/
+theorem eraseDups_of_nodup : ∀ l : List Bytes, l.Nodup → l.eraseDups = l := by
+  intro l
+  induction l with
+  | nil => intro _; simp
+  | cons a as ih =>
+    intro h
+    rw [List.nodup_cons] at h
+    have hf : as.filter (fun b => !b == a) = as := by
+      rw [List.filter_eq_self]; intro x hx
+      have : x ≠ a := fun e => h.1 (e ▸ hx)
+      simp [this]
+    rw [List.eraseDups_cons, hf, ih h.2]
+
+/-- the operand order the model draws is a permutation of the operands -/
+theorem nthPermF_perm {α : Type} : ∀ (f n : Nat) (l : List α), (nthPermF f n l).Perm l := by
+  intro f
+  induction f with
+  | zero => intro n l; simp [nthPermF]
+  | succ f ih =>
+    intro n l
+    unfold nthPermF
+    split
+    · rename_i he; simp at he; subst he; exact List.Perm.refl _
+    · rename_i he
+      have hpos : 0 < l.length := by
+        cases l with
+        | nil => simp at he
+        | cons a r => simp
+      have hi : n % l.length < l.length := Nat.mod_lt _ hpos
+      simp only [List.getElem?_eq_getElem hi]
+      have h1 := ih (n / l.length) (l.eraseIdx (n % l.length))
+      have h2 : (l[n % l.length] :: l.eraseIdx (n % l.length)).Perm l := perm_getElem_eraseIdx l _ hi
+      exact (List.Perm.cons _ h1).trans h2
+
+theorem nthPerm_perm {α : Type} (n : Nat) (l : List α) : (nthPerm n l).Perm l := nthPermF_perm _ _ _
+
+/-- every operand present and a live unshared set: the loop reads them all (state untouched) and hands their
+    member lists over in loop order -/
+theorem run_interLoop_all (c : Ctx) (s : State) (mem : Bytes → List Bytes) (onAbsent : Res) :
+    ∀ (L : List (Bytes × Bool)) (kont : List (Nat × List Bytes) → Prog Res),
+    (∀ p ∈ L, p.2 = true ∧ ∃ ex, s.lookup c.db p.1 = some ⟨.set 0 (mem p.1), ex⟩ ∧
+        (⟨.set 0 (mem p.1), ex⟩ : Entry).expired c.now = false) →
+    (interLoop L onAbsent kont).run c s = (kont (L.map fun p => (0, mem p.1))).run c s := by
+  intro L
+  induction L with
+  | nil => intro kont _; simp [interLoop]
+  | cons p r ih =>
+    intro kont h
+    obtain ⟨k, e⟩ := p
+    obtain ⟨he, ex, hl, hlive⟩ := h (k, e) (by simp)
+    simp only at he hl hlive
+    subst he
+    simp only [interLoop, Bool.not_true, Bool.false_eq_true, if_false, run_getValues, getValues_live _ _ _ _ hl hlive,
+      List.headD_cons, asSet?]
+    rw [ih _ (fun q hq => h q (by simp [hq]))]
+    simp
+
+/-- a prefix on which the predicate fails everywhere only shifts the index found -/
+theorem findIdx?_skip (p : Bytes → Bool) (ks rest : List Bytes) (h : ∀ k ∈ ks, p k = false) :
+    (ks ++ rest).findIdx? p = (rest.findIdx? p).map (· + ks.length) := by
+  rw [List.findIdx?_append]
+  have : ks.findIdx? p = none := by
+    rw [List.findIdx?_eq_none_iff]; exact h
+  rw [this]; simp
+
+/-- every key present: the existence flags zipped onto the keys -/
+theorem zip_map_true (ks : List Bytes) : ks.zip (ks.map fun _ => true) = ks.map fun k => (k, true) := by
+  induction ks with
+  | nil => rfl
+  | cons a r ih => simp [ih]
+
 /-! ### the SDIFF operand loop on any number of keys -/
 
 /-- the members a key contributes to a set-algebra command: those of the set stored there, none if absent -/
@@ -423,6 +573,36 @@ theorem nodup_of_length_eraseDups (l : List Bytes) (h : l.eraseDups.length = l.l
     intro hm
     have := (List.filter_eq_self.mp h4) a hm
     simp at this
+/-- duplicate removal leaves no duplicates (fuelled form) -/
+theorem nodup_eraseDups_aux (n : Nat) : ∀ l : List Bytes, l.length ≤ n → l.eraseDups.Nodup := by
+  induction n with
+  | zero => intro l h; cases l with
+    | nil => simp
+    | cons a as => simp at h
+  | succ n ih =>
+    intro l h
+    cases l with
+    | nil => simp
+    | cons a as =>
+      rw [List.eraseDups_cons, List.nodup_cons]
+      have h1 := List.length_filter_le (fun b => !b == a) as
+      refine ⟨?_, ih (as.filter fun b => !b == a) (by simp at h; omega)⟩
+      intro hm
+      have := (List.mem_filter.mp (List.mem_eraseDups.mp hm)).2
+      simp at this
+
+/-- duplicate removal leaves no duplicates -/
+theorem nodup_eraseDups (l : List Bytes) : l.eraseDups.Nodup := nodup_eraseDups_aux l.length l (Nat.le_refl _)
+
+/-- **the count Set.Add reports on a fresh set is the number of distinct elements named** -/
+theorem setAdd_nil_count (es : List Bytes) : (setAdd [] es).2 = es.eraseDups.length := by
+  have hp : (setAdd [] es).1.Perm es.eraseDups :=
+    (List.perm_ext_iff_of_nodup (nodup_setAdd [] es List.nodup_nil) (nodup_eraseDups es)).mpr fun x => by
+      rw [mem_setAdd, List.mem_eraseDups]; simp
+  have := length_setAdd [] es
+  rw [hp.length_eq] at this
+  simpa using this.symm
+
 /-! ### SUNIONSTORE tail on two operands -/
 
 /-- typed unfolding of the `newOid` primitive (pure) -/
